@@ -175,7 +175,7 @@ def c11_oracle(case_line, impl, model):
 
 @prop("C11", replay_known=replay_runtime_known)
 def c11(ctx, rep):
-    run_corr(ctx, rep, [("c11", 500, 12000)], fields=["out", "val", "errs"],
+    run_corr(ctx, rep, [("c11", 500, 12000), ("c08", 250, 5000)], fields=["out", "val", "errs"],
              ref_fields=["out", "val", "errs"], oracle=c11_oracle, known_quirks=known_quirks_for("C11"))
 
 # ------------------------------------------------------------------ C12
@@ -277,16 +277,28 @@ def c10_derive(lines):
 
 @prop("C10", replay_known=replay_runtime_known)
 def c10(ctx, rep):
-    run_corr(ctx, rep, [("c10", 400, 10000)], fields=["out", "val", "errs", "gs", "cnt"],
+    run_corr(ctx, rep, [("c10", 400, 10000), ("c08", 250, 5000)], fields=["out", "val", "errs", "gs", "st", "cnt"],
              ref_fields=["out", "val", "errs"], known_quirks=known_quirks_for("C10"), derive=c10_derive)
     from .props import same_on
-    pairs = 0
+    pairs = skipped = 0
     for cid, l in rep.case_lines.items():
         if cid.endswith("~O"):
             base = cid[:-2]
             a, b = rep.impl_obs.get(base, {}), rep.impl_obs.get(cid, {})
+            # C10 speaks about default run-time options: a pair in which either parser ran into the
+            # MaxExpressions budget (or the watchdog) is outside it - the two templates count differently
+            hit = lambda o: o.get("out") in corr.NONTERM or MAXEXPR_MSG.encode().hex() in (o.get("errs") or "")
+            if hit(a) or hit(b):
+                skipped += 1
+                continue
             pairs += 1
             if not same_on(["out", "val", "errs"], a, b):
                 rep.violation("-optimize-parser changes the result (value / error list)",
                               {"case": rep.case_lines.get(base), "standard": a, "optimized": b}, found=True)
     rep.cov["optimize_pairs_compared"] = pairs
+    rep.cov["optimize_pairs_outside_default_options (budget hit)"] = skipped
+
+# ------------------------------------------------------------------ C08 (left-recursive rules)
+@prop("C08", replay_known=replay_runtime_known)
+def c08(ctx, rep):
+    run_corr(ctx, rep, [("c08", 300, 8000)], fields=["out", "val", "errs", "gs", "st", "cnt"], ref_fields=None)
